@@ -162,25 +162,36 @@ def check_label_template(ctx, r, cg):
     need(len(setter.params) >= 2, "label setter no longer takes (index, structure)")
     p_index, p_struct = setter.params[0], setter.params[1]
     n_tpl = 0
+    tpls = []
     for n in walk_scope(setter.node):
         if isinstance(n, ast.Assign) and any(isinstance(t, ast.Attribute) and r.tl_of_expr(setter, t) for t in n.targets):
-            v = n.value
-            n_tpl += 1
-            if not isinstance(v, ast.JoinedStr):
-                ctx.bad("C16.3", setter, n, "the '?' label is not built from a template with the leaf index and structure name")
-                continue
-            holes = [norm(x.value) for x in v.values if isinstance(x, ast.FormattedValue)]
-            lits = "".join(x.value for x in v.values if isinstance(x, ast.Constant) and isinstance(x.value, str))
-            non_ident = [ch for ch in lits if not (ch.isalnum() or ch == "_")]
-            if p_struct not in holes:
-                ctx.bad("C16.3", setter, n, "the label does not contain the structure name: labels of different structures collide")
-            elif not non_ident:
-                ctx.bad("C16.3", setter, n, "the label contains no character that cannot occur in an identifier: a labelled key can "
-                        "equal a plain axis name")
-            else:
-                ctx.ok("C16.3", setter.qualname, f"label template holes {holes}, non-identifier literal characters {sorted(set(non_ident))!r}")
+            # the stored value, followed through a local it was built in
+            cands = [(n, n.value)]
+            if isinstance(n.value, ast.Name) and n.value.id not in setter.params:
+                defs = c05._assignments_to(setter, n.value.id)
+                need(defs and all(d[2] is None and d[1] is not None for d in defs), f"C16.3: the value stored as the label (`{n.value.id}`) could not be followed to its definitions")
+                cands = [(d[0], d[1]) for d in defs]
+            for stn, v in cands:
+                if isinstance(v, ast.Constant) and not v.value:
+                    continue  # a clearing store
+                n_tpl += 1
+                if isinstance(v, ast.Constant):
+                    ctx.bad("C16.3", setter, stn, "the '?' label is not built from a template with the leaf index and structure name")
+                    continue
+                if not isinstance(v, ast.JoinedStr):
+                    raise AnalysisError(f"C16.3: the label value `{short(v, 60)}` is not an f-string template; the rule cannot read its holes")
+                tpls.append(v)
+                holes = [norm(x.value) for x in v.values if isinstance(x, ast.FormattedValue)]
+                lits = "".join(x.value for x in v.values if isinstance(x, ast.Constant) and isinstance(x.value, str))
+                non_ident = [ch for ch in lits if not (ch.isalnum() or ch == "_")]
+                if p_struct not in holes:
+                    ctx.bad("C16.3", setter, stn, "the label does not contain the structure name: labels of different structures collide")
+                elif not non_ident:
+                    ctx.bad("C16.3", setter, stn, "the label contains no character that cannot occur in an identifier: a labelled key can "
+                            "equal a plain axis name")
+                else:
+                    ctx.ok("C16.3", setter.qualname, f"label template holes {holes}, non-identifier literal characters {sorted(set(non_ident))!r}")
     # per-leaf template must contain the index: at least one template mentions it
-    tpls = [n.value for n in walk_scope(setter.node) if isinstance(n, ast.Assign) and isinstance(n.value, ast.JoinedStr)]
     if not any(p_index in [norm(x.value) for x in t.values if isinstance(x, ast.FormattedValue)] for t in tpls):
         ctx.bad("C16.3", setter, setter.node, "no label template contains the leaf index: all leaves of a tree share one label",
                 construct="label templates without {index}")
